@@ -170,10 +170,14 @@ class DeepONetDataset_Unique(torch.utils.data.Dataset):
             self.trunk_data_points = self.trunk_data_points[branch_perm]
 
         self.trunk_batch_size = (
-            len(self.trunk_data_points[0]) if trunk_batch_size < 0 else trunk_batch_size
+            len(self.trunk_data_points[0])
+            if trunk_batch_size < 0
+            else min(trunk_batch_size, len(self.trunk_data_points[0]))
         )
         self.branch_batch_size = (
-            len(self.branch_data_points) if branch_batch_size < 0 else branch_batch_size
+            len(self.branch_data_points)
+            if branch_batch_size < 0
+            else min(branch_batch_size, len(self.branch_data_points))
         )
 
         self.branch_space = branch_space
